@@ -18,6 +18,7 @@ var (
 	vfsJail     string
 	vfsBase     map[string]string
 	vfsLongName bool
+	vfsLongElem string
 	vfsSeq      int
 )
 
@@ -39,6 +40,13 @@ func vfsReset() {
 }
 
 func vfsTarget() string { return filepath.Join(vfsJail, "T") }
+
+func vfsTargetAsFile() {
+	os.RemoveAll(vfsTarget())
+	if err := os.WriteFile(vfsTarget(), []byte("a file"), 0o644); err != nil {
+		panic(err)
+	}
+}
 
 func vfsRemoveTarget() { os.RemoveAll(vfsTarget()) }
 
